@@ -529,5 +529,7 @@ def run(ctx):
     ctx.do(_c01.r1_2)  # COPY / MOVE by message number address what the session meant
     ctx.do(c10.r10_3)  # a queued command's set is resolved again after its wait
     ctx.do(c10.r10_2)  # a removal by UID list (MOVE, POP3 QUIT) runs under a command that excludes the readers it renumbers
+    from . import c13 as _c13g
+    ctx.do(_c13g.r13_9)  # no message is born \Deleted: the next EXPUNGE would remove what no client flagged
     for k, v in RAISE_AFTER_EFFECT_OK.items():
         ctx.trust(f"frozen raise-after-effect exemption: {k} - {v}")
